@@ -564,7 +564,6 @@ func uniqueMatch(e *Env, p *load.Program, f *ssa.Function, rg *ssa.Range, b *ssa
 	return false, "no equality guard on the iteration's key or value"
 }
 
-
 // sameLoadedValue: the same SSA value or two loads of the same address.
 func sameLoadedValue(a, b ssa.Value) bool {
 	if a == b {
